@@ -75,8 +75,15 @@ func encodeCol(col proto.Column, pre []byte) (state, body []byte, err error) {
 	if col.Rows() == 0 {
 		return nil, nil, nil
 	}
+	// the output buffer is a reused one: what precedes is `pre`, and its spare capacity still holds the
+	// bytes of an earlier, longer use (0xA5) - an encoder must not let them show
 	var b proto.Buffer
-	b.Buf = append(b.Buf, pre...)
+	arena := make([]byte, len(pre)+8192)
+	for i := range arena {
+		arena[i] = 0xA5
+	}
+	copy(arena, pre)
+	b.Buf = arena[:len(pre)]
 	if s, ok := col.(proto.StateEncoder); ok {
 		s.EncodeState(&b)
 	}
